@@ -12,7 +12,7 @@ CLAIMS = {
    ref="DESIGN.md section 4 C10, section 3 E1/E7/E8"),
  "C09": dict(
    technique="may-throw and may-write effect summaries over the resolved call graph; must-pass-through on the structured CFG",
-   text="Decides the structural half of C09 in all six configurations: divide_cell's single try catches every type its callee closure may throw and no noexcept function on its cone leaks an exception (no crash on failed division); its may-write effects on the mother are within cell::rebase's; daughters are returned only after initialize_cell_properties(true); each inherits mother.target_volume_/2; every concrete cell class constructs its own class; cell_divider::run appends two cells / records one removal under critical with ids from the post-incremented shared counter, removes and renumbers after the loop, and never resizes the list while other threads read it.",
+   text="Decides the structural half of C09 in all six configurations: divide_cell's single try catches every type its callee closure may throw and no noexcept function on its cone leaks an exception (no crash on failed division); its may-write effects on the mother are within cell::rebase's; daughters are returned only after initialize_cell_properties(true); each inherits mother.target_volume_/2; every concrete cell class constructs its own class; cell_divider::run appends two cells / records one removal under critical with ids from the post-incremented shared counter, removes and renumbers after the loop, and never resizes the list while other threads read it; no size of the mother's node/face list is kept in the divider across a call that may compact that list.",
    note="Geometric clauses (daughter volumes, sides of the plane, manifoldness of the cut) quantify over meshes and are not decided. Trusted: CHA, syntactic object identity, frozen table of throwing std calls.",
    ref="DESIGN.md section 4 C09"),
 }
@@ -47,8 +47,8 @@ CLAIMS.update({
    note="Bit-identity of results across thread counts and schedules is not decided (no schedule exploration in this family). Aliasing between different handles is not tracked; virtual calls by CHA.",
    ref="DESIGN.md section 4 C15, section 3 E6"),
  "C17": dict(
-   technique="exception-type lattice + may-throw summaries, nullable-result guard dataflow, taint-to-bound-check dominance in the mesh reader",
-   text="Decides for every input (all paths): every throw is std::exception-derived; nothing that may throw in main is outside its try/catch(std::exception); no noexcept function on the start-up cone (simulation_initializer, parameter_reader, mesh_reader, solver constructors) leaks a callee's exception; every nullable tinyxml2 result is tested before dereference or std::string construction (one level of interprocedural propagation); every vector subscript / iterator offset derived from file integers in mesh_reader is dominated by a bound check against that container.",
+   technique="exception-type lattice + may-throw summaries, nullable-result guard dataflow, taint-to-bound-check dominance with linear-form sufficiency and signedness of the comparison",
+   text="Decides for every input (all paths): every throw is std::exception-derived; nothing that may throw in main is outside its try/catch(std::exception); no noexcept function on the start-up cone (simulation_initializer, parameter_reader, mesh_reader, solver constructors) leaks a callee's exception; every nullable tinyxml2 result is tested before dereference or std::string construction (one level of interprocedural propagation); every vector subscript / iterator offset derived from file integers in mesh_reader, and every subscript by an integer the reader returned (the cell-type ids used by the initializer), is dominated by a bound check against that container; for iterator arithmetic the check is also shown to be sufficient in linear integer arithmetic (position reached - size <= the guard's own form), and a signed index must be compared in unsigned arithmetic or be tested against 0.",
    note="Termination, memory proportionality and std::regex behaviour are not decided. tinyxml2 and the throwing std calls are summarised by frozen tables. optional::value() in noexcept accessors is excluded (guard lives in callers).",
    ref="DESIGN.md section 4 C17"),
 })
